@@ -175,6 +175,14 @@ pub fn replay(cases_path: &str, out_path: &str, labels_path: &str) {
         let r = guarded(|| -> Result<usize, (String, String)> {
             let voice = load_htsvoice_file(&path).map_err(|e| ("load:error".to_string(), format!("well-formed rendered voice rejected: {}", e)))?;
             let n = check_voice(&voice, &case["says"], &labels)?;
+            // growth beyond C04: a Voice survives its own serde round trip (derive + the custom RegexWrap impl) unchanged,
+            // and the round-tripped value still is what the file says
+            let js = serde_json::to_string(&voice).map_err(|e| ("serde:serialize".to_string(), e.to_string()))?;
+            let back: Voice = serde_json::from_str(&js).map_err(|e| ("serde:deserialize".to_string(), e.to_string()))?;
+            if back != voice {
+                return Err(("serde:roundtrip".into(), "Voice != deserialize(serialize(Voice))".into()));
+            }
+            check_voice(&back, &case["says"], &labels).map_err(|(k, m)| (format!("serde:{}", k), m))?;
             let engine = Engine::load(&[&path]).map_err(|e| ("engine:error".to_string(), format!("Engine::load failed: {}", e)))?;
             check_engine_defaults(&engine, &case["says"])?;
             Ok(n)
